@@ -6,7 +6,8 @@ import time
 
 VERIF = os.path.dirname(os.path.dirname(os.path.abspath(__file__)))
 REPLAY = os.path.join(VERIF, 'replay')
-HAVE = {'C01', 'C03', 'C04', 'C05', 'C08', 'C10', 'C14', 'C15', 'C19'}
+HAVE = {'C01', 'C03', 'C04', 'C05', 'C06', 'C08', 'C10', 'C12', 'C13', 'C14', 'C15', 'C19'}
+RIDS = {'C08': ['C08', 'C08Q']}     # replay-crate dispatch ids per property (default: the property id)
 _cache = {}
 
 
@@ -36,20 +37,38 @@ def search(pid, seed, tier='quick'):
     if pid in HAVE:
         binary = build_replay()
         if binary:
-            p = subprocess.run(['timeout', '900', binary, pid, str(seed), tier], stdout=subprocess.PIPE, stderr=subprocess.PIPE, text=True)
-            for ln in p.stdout.split('\n'):
-                ln = ln.strip()
-                if ln.startswith('{'):
-                    try:
-                        r = json.loads(ln)
-                        res.setdefault(r['obligation'], r)
-                    except Exception:
-                        pass
+            for rid in RIDS.get(pid, [pid]):
+                p = subprocess.run(['timeout', '900', binary, rid, str(seed), tier], stdout=subprocess.PIPE, stderr=subprocess.PIPE, text=True)
+                for ln in p.stdout.split('\n'):
+                    ln = ln.strip()
+                    if ln.startswith('{'):
+                        try:
+                            r = json.loads(ln)
+                            res.setdefault(r['obligation'], r)
+                        except Exception:
+                            pass
     _cache[pid] = res
     return res
 
 
 BOUNDED = {
+    'C06': dict(what='the REAL Binance spot and futures L2 transformers behind the REAL with_termination_on_error + with_reconnection_events: two instruments on one '
+                     'connection followed by a clean second connection; deliveries perturbed by drop / duplicate / swap / replay of an old prefix / late or early start / '
+                     'snapshot id at every boundary / stray update: admitted updates form an unbroken chain and equal the reference, a break is a terminal error that ends '
+                     'the connection (nothing delivered after it, one Reconnecting notice), gap-free delivery preceded by older messages never errors',
+                bound={'quick': '~10k perturbed deliveries', 'thorough': '~180k'}),
+    'C08': dict(what='the REAL MockExchange: open_order enumeration (sides x quantities x fees x balances around the requirement x instrument known/unknown x kind), and the '
+                     'run() request loop under a paused clock (OpenOrder / FetchTrades / FetchAccountSnapshot / FetchBalances; latency 0 / 6 / 11 ms): trade queries before / '
+                     'at / around / after every fill time return exactly the accepted fills at or after time_since in order; snapshots equal the ledger',
+                bound={'quick': '~3.5k request sequences', 'thorough': '~60k'}),
+    'C12': dict(what='the REAL with_reconnect_backoff -> with_termination_on_error -> with_reconnection_events chain (with / without with_error_handler) on scripted connection '
+                     'outcomes under the paused tokio clock, every event stamped with virtual time and compared with a reference model over nine backoff policies; forward_to '
+                     'against a Tx refusing after k sends; merge driven through two channels with scripted interleavings of sends and closes',
+                bound={'quick': '~14k scripts', 'thorough': '~600k'}),
+    'C13': dict(what='subscription side joined with message side on the REAL code for 17 (connector, kind) pairs: WebSocketSubMapper::map + serde deserialisation of venue '
+                     'payloads + StatelessTransformer, three instrument flavours, instrument lists up to length 3 (4) with repetitions, mixed case, digits, colliding prefixes, '
+                     'several expiries / strikes: instrument key, exchange id, price / amount / side / time as stated; unsubscribed markets are unidentifiable',
+                bound={'quick': '~250k message attributions', 'thorough': '~1.9M'}),
     'C03': dict(what='engine scenarios on the REAL Engine (3 exchanges, 6 instruments; execution links healthy / closed / missing incl. a missing link at a lower '
                      'exchange index and tx maps built by the real ExecutionBuilder; scripted strategy; risk manager refusing a chosen cid set): requests reported '
                      'sent are delivered exactly once to the named exchange and marked in flight; failed ones carry a (fatal where due) error, no mark, nothing '
@@ -139,20 +158,23 @@ def post_checks(pid, tier, seed, evidence):
         info['status'] = 'not run: replay crate unavailable (scratch source tree or build failure)'
     else:
         t0 = time.time()
-        p = subprocess.run(['timeout', '1800', binary, pid, str(seed), tier], stdout=subprocess.PIPE, stderr=subprocess.PIPE, text=True)
-        cases = 0
-        for ln in p.stderr.split('\n'):
-            if ln.startswith('cases evaluated:'):
-                cases = int(ln.split(':')[1])
-        for ln in p.stdout.split('\n'):
-            if ln.strip().startswith('{'):
-                r = json.loads(ln)
-                viol.append(dict(obligation=r['obligation'] if r['obligation'].startswith(pid + '.bounded') else r['obligation'] + '@bounded', kind='bounded stand-in on the real code',
-                                 text='', verifier_output='bounded enumeration found a failing configuration', input=r['input'],
-                                 observed='observed %s, expected %s' % (r['observed'], r['expected'])))
-        info.update(status='ran', cases=cases, failures=len(viol), wall_s=round(time.time() - t0, 2), exit_code=p.returncode)
-        if p.returncode != 0 and not viol:
-            info['status'] = 'replay binary failed (exit %s): %s' % (p.returncode, p.stderr[-500:])
+        cases, rc, err = 0, 0, ''
+        for rid in RIDS.get(pid, [pid]):
+            p = subprocess.run(['timeout', '1800', binary, rid, str(seed), tier], stdout=subprocess.PIPE, stderr=subprocess.PIPE, text=True)
+            for ln in p.stderr.split('\n'):
+                if ln.startswith('cases evaluated:'):
+                    cases += int(ln.split(':')[1])
+            for ln in p.stdout.split('\n'):
+                if ln.strip().startswith('{'):
+                    r = json.loads(ln)
+                    viol.append(dict(obligation=r['obligation'] if '.bounded' in r['obligation'] else r['obligation'] + '@bounded', kind='bounded stand-in on the real code',
+                                     text='', verifier_output='bounded enumeration found a failing configuration', input=r['input'],
+                                     observed='observed %s, expected %s' % (r['observed'], r['expected'])))
+            if p.returncode != 0:
+                rc, err = p.returncode, p.stderr[-500:]
+        info.update(status='ran', cases=cases, failures=len(viol), wall_s=round(time.time() - t0, 2), exit_code=rc)
+        if rc != 0 and not viol:
+            info['status'] = 'replay binary failed (exit %s): %s' % (rc, err)
     if evidence is not None:
         evidence['coverage'].setdefault('bounded_standins', []).append(info)
     return viol
